@@ -391,6 +391,88 @@ def ob_parent_certified(run, oid):
             continue
         bad = _depends_on_param(prog, b, 2)
         o.check(not bad, "%s|by-hash" % fn, "SlotState::%s answers true only behind a comparison with its block-hash argument" % fn, b.span, {"problems": bad[:3]})
+    # ... and the converse: ANY of the three kinds certifying that hash is enough (a notarization of a sibling must not hide the
+    # notar-fallback certificate of the block asked about). Truth table over (notar: none/other/same, fast-final: none/other/same, notar-fallback: no/yes)
+    from engine import paths
+    b = prog.body(SS + "::is_notar_fallback_or_stronger")
+    if b is not None:
+        rows = [r for r in paths.decision_table(b, prog) if r[1] is not None]
+
+        def value(t, st, pol=True):
+            """truth value of a boolean term under state st = {'notar': .., 'fast_finalize': .., 'nf': bool}; None = not understood"""
+            t = K.peel(t)
+            if isinstance(t, tuple) and t and t[0] == "const":
+                return bool(t[2]) if t[2] in (0, 1, True, False) else None
+            if isinstance(t, tuple) and t and t[0] == "call":
+                nm = t[1].rsplit("::", 1)[-1]
+                if t[1] == SS + "::is_notar_fallback":
+                    return st["nf"]
+                for f in ("notar", "fast_finalize"):
+                    if K.mentions_field(t, f, "SlotCertificates") and not any(K.mentions_field(t, g, "SlotCertificates") for g in ("notar", "fast_finalize", "notar_fallback") if g != f):
+                        if nm == "is_some_and" and K.mentions(t, lambda x: x[0] == "closure") and K.mentions(t, lambda x: x[0] == "param" and x[1] == 2):
+                            return st[f] == "same"
+                        if nm in ("eq", "ne") and K.mentions_call(t, "block_hash") and K.mentions(t, lambda x: x[0] == "param" and x[1] == 2):
+                            return (st[f] == "same") == (nm == "eq")
+                        if nm == "is_some":
+                            return st[f] != "none"
+                        if nm == "is_none":
+                            return st[f] == "none"
+            return None
+
+        def atom_value(a, st):
+            if a[0] == "is_some" and isinstance(a[1][0], tuple):
+                for f in ("notar", "fast_finalize"):
+                    if K.is_field(K.peel(a[1][0]), f, "SlotCertificates") or (K.mentions_field(a[1][0], f, "SlotCertificates") and not K.mentions(a[1][0], lambda x: x[0] == "call" and x[1].rsplit("::", 1)[-1] not in ("as_ref", "deref", "clone"))):
+                        return (st[f] != "none") == a[2]
+                return None
+            if a[0] == "bool":
+                v = value(a[1][0], st)
+                return None if v is None else (v == a[2])
+            if a[0] == "eq" and any(K.mentions_call(x, "block_hash") for x in a[1]) and any(K.mentions(x, lambda y: y[0] == "param" and y[1] == 2) for x in a[1]):
+                for f in ("notar", "fast_finalize"):
+                    if any(K.mentions_field(x, f, "SlotCertificates") for x in a[1]):
+                        return (st[f] == "same") == a[2]
+            return None
+        bad = []
+        und = None
+        for nt in ("none", "other", "same"):
+            for ff in ("none", "other", "same"):
+                for nf in (False, True):
+                    st = {"notar": nt, "fast_finalize": ff, "nf": nf}
+                    got = []
+                    for atoms, ret, _bl in rows:
+                        hold = True
+                        for a in atoms:
+                            if D.is_structural_atom(a):
+                                continue
+                            v = atom_value(a, st)
+                            if v is None:
+                                und = G.atoms_show([a])[0]
+                                break
+                            if not v:
+                                hold = False
+                                break
+                        if und:
+                            break
+                        if hold:
+                            v = value(ret, st)
+                            if v is None:
+                                und = mir.show(ret)[:80]
+                                break
+                            got.append(v)
+                    if und:
+                        break
+                    want = nt == "same" or ff == "same" or nf
+                    if not got or any(g != want for g in got):
+                        bad.append("notar=%s fast-final=%s notar-fallback=%s: answers %s, should be %s" % (nt, ff, nf, got[:1], want))
+                if und:
+                    break
+            if und:
+                break
+        if und:
+            o.fail("is_notar_fallback_or_stronger|exact|undecided", "the answer could not be tabulated (%s): failing closed" % und, b.span)
+        else:
+            o.check(not bad, "is_notar_fallback_or_stronger|exact", "true exactly when the slot holds a notarization, fast-finalization or notar-fallback certificate for that hash (18 combinations)", b.span, {"mismatches": bad[:3]})
 
 
 def ob_sorted_vec(run, oid):
